@@ -429,6 +429,34 @@ def run(ctx, model_ok):
                              "the dump did not reproduce", details)
     # ---- grouping of every operator pair through the CLI
     confirm_pairs(ctx, rng)
+    # ---- grouping is also what is EVALUATED: values at the 64-bit edge tell `a + (b + c)` from `(a + b) + c`, and a `-` in
+    # front of a literal is a sign only where an operand can start (the magnitude 2^63 has no literal)
+    MAXI = 2 ** 63 - 1
+    edge = [
+        ("big := 9223372036854775807\nd := 0 - 1\nprint(big + (1 + d))\n", f"{MAXI}\n", "0"),
+        ("big := 9223372036854775807\nd := 0 - 1\nprint(big + 1 + d)\n", "", "103"),
+        ("big := 9223372036854775807\nprint(big - (1 - 2))\n", "", "103"),
+        ("big := 9223372036854775807\nprint(big - 1 - (0 - 1))\n", f"{MAXI}\n", "0"),
+        ("low := 0 - 9223372036854775807 - 1\nprint(low - (0 - 1) - 1)\n", f"{-MAXI - 1}\n", "0"),
+        ("low := 0 - 9223372036854775807 - 1\nprint(low - ((0 - 1) + 1))\n", f"{-MAXI - 1}\n", "0"),
+        ("x := 3037000500\nprint(x * (x / x))\n", "3037000500\n", "0"),
+        ("x := 3037000500\nprint(x * x / x)\n", "", "103"),
+        ("i := 9223372036854775807\nprint(i + 1 - 2)\n", "", "103"),
+        ("i := 9223372036854775807\nprint(i - 2 + 1)\n", f"{MAXI - 1}\n", "0"),
+        ("print(-1 -9223372036854775808)\n", "", "103"), ("print(0 - 9223372036854775808)\n", "", "103"),
+        ("print(-9223372036854775808)\n", "", "103"), ("x := [1]\nprint(x[0] -9223372036854775808)\n", "", "103"),
+        ("print(-9223372036854775807 - 1)\n", f"{-MAXI - 1}\n", "0"), ("print(3 -2)\nprint(3 - -2)\nprint([3 -2])\nprint([3, -2])\n", "1\n5\n[\n    1,\n]\n[\n    3,\n    -2,\n]\n", "0"),
+    ]
+    eres = core.cli_batch([e[0] for e in edge])
+    ctx.count("edge-values:cli", len(edge))
+    for (src, out, st), r in zip(edge, eres):
+        ctx.nontrivial(("edge", src[-40:]))
+        if (r["stdout"], r["status"]) != (out, st) or "panicked" in r["stderr"]:
+            ctx.violation(f"C08: the grouping that is evaluated is not the documented one: expected stdout {out!r} and status {st}", src, {"cli": r})
+            break
+    if model_ok:
+        _, edis = tie.run(ctx, [e[0] for e in edge], "edge-values", model_ok)
+        tie.report_disagreements(ctx, edis, "edge-values")
     # ---- leg B: model vs implementation, trees with positions
     if model_ok:
         k = 100000 if thorough else 6000
